@@ -213,8 +213,12 @@ class Statement(object):
             min_size += statements[x].code_pkg.size
 
         raw_post_byte = self.code_pkg.post_byte.int
-        max_size += 2
-        min_size += 2
+        if positive_range:
+            max_size += 2
+            min_size += 2
+        else:
+            max_size += self.code_pkg.size + 1
+            min_size += self.code_pkg.size + 1
 
         if positive_range:
             if min_size <= 127 and max_size <= 127:
